@@ -383,6 +383,28 @@ func (h *harness) niCase(c *niCase, comp compiler.Name, variant int, r *vh.Rng, 
 		}
 		h.checkOne("structure-"+k, c, comp, variant, cs, 0, p2, orig, want)
 	}
+	// every decoded component altered alone: the leaves of the proof's CBOR tree (every
+	// element of every repeated array individually; first/middle/last two when there are many)
+	if leaves, err := cborLeaves(proof); err == nil {
+		budget := 48
+		if h.thorough || h.a.Search {
+			budget = 400
+		}
+		for _, l := range selectLeaves(leaves, budget) {
+			p2 := l.alter(proof, 0x01)
+			if p2 == nil {
+				continue
+			}
+			d2 := c.decode(comp, p2)
+			want := "0"
+			if d2 != nil && d2.equal(orig) {
+				want = "1"
+			}
+			h.checkOne("component-altered", c, comp, variant, cs, 0, p2, orig, want)
+		}
+	} else {
+		h.res.Note("proof of %s/%s is not walkable CBOR: %v", c.id, short(comp), err)
+	}
 	if comp == randfischlin.Name {
 		h.leadingZeros(c, variant, cs, proof, orig)
 	}
